@@ -5,28 +5,58 @@ import (
 	"runtime"
 )
 
-const maxClosed = 256
+// The set of channels the code under test has closed (the instrumenter puts a
+// Closed call in front of every close): an open-addressing hash set of channel
+// addresses. The channels are kept reachable so that their addresses cannot be
+// reused while the set is in use; Init empties it.
+const closedBits = 16
+const maxClosed = 1 << closedBits
 
 var closedSet [maxClosed]uintptr
-var closedKeep [maxClosed]interface{} // keeps closed channels reachable: their addresses must not be reused
+var closedKeep [maxClosed]interface{}
 var nClosed int
 
 //go:norace
-func isClosed(p uintptr) bool {
-	for i := 0; i < nClosed; i++ {
-		if closedSet[i] == p {
-			return true
-		}
+func closedSlot(p uintptr) int {
+	h := int((uint64(p) * 0x9e3779b97f4a7c15) >> (64 - closedBits))
+	for closedSet[h] != 0 && closedSet[h] != p {
+		h = (h + 1) & (maxClosed - 1)
 	}
-	return false
+	return h
 }
 
 //go:norace
-func markClosed(p uintptr) {
-	if nClosed < maxClosed {
-		closedSet[nClosed] = p
+func isClosed(p uintptr) bool {
+	return p != 0 && nClosed > 0 && closedSet[closedSlot(p)] == p
+}
+
+//go:norace
+func markClosed(p uintptr, ch interface{}) {
+	if p == 0 {
+		return
+	}
+	if nClosed >= maxClosed/2 {
+		setUnsupported("more than 32768 channels closed in one simulated phase")
+		return
+	}
+	h := closedSlot(p)
+	if closedSet[h] != p {
+		closedSet[h] = p
+		closedKeep[h] = ch
 		nClosed++
 	}
+}
+
+//go:norace
+func resetClosed() {
+	if nClosed == 0 {
+		return
+	}
+	for i := range closedSet {
+		closedSet[i] = 0
+		closedKeep[i] = nil
+	}
+	nClosed = 0
 }
 
 // WaitRecv yields until a receive on the channel ch cannot block. The real
@@ -148,6 +178,11 @@ func rendezvous(p uintptr, send bool) {
 	}
 	me := cur
 	for {
+		if halting {
+			// the simulated program is exiting: no partner will ever execute its
+			// half of a rendezvous again
+			panic(HaltAbort{})
+		}
 		if isClosed(p) {
 			// a receive returns at once, a send panics: both without blocking
 			Progress()
@@ -208,10 +243,7 @@ func AfterChanOp(isSend bool) {
 
 // Closed records that ch is about to be closed.
 func Closed(ch interface{}) {
-	if nClosed < maxClosed {
-		closedKeep[nClosed] = ch
-	}
-	markClosed(reflect.ValueOf(ch).Pointer())
+	markClosed(reflect.ValueOf(ch).Pointer(), ch)
 	Progress()
 }
 
@@ -303,19 +335,29 @@ func Select(chans []interface{}, send []bool, hasDefault bool) int {
 				continue
 			}
 			if !addSelPend(v.Pointer(), me, send[i], i) {
-				Unsupported = "too many tasks pending on unbuffered channels"
+				setUnsupported("too many tasks pending on unbuffered channels")
 				panic("zzsim: pending table full")
 			}
 		}
 		Blocked()
 		if matched(me) {
-			return int(tasks[me].selCase) // woken as the partner of a plain send/receive: run that case
+			return selCaseOf(me) // woken as the partner of a plain send/receive: run that case
 		}
 	}
 }
 
 //go:norace
 func matched(me int) bool { return tasks[me].rdv == 1 }
+
+//go:norace
+func selCaseOf(me int) int { return int(tasks[me].selCase) }
+
+//go:norace
+func setUnsupported(s string) {
+	if Unsupported == "" {
+		Unsupported = s
+	}
+}
 
 //go:norace
 func pendOther(p uintptr, send bool, me int) bool {
